@@ -42,4 +42,47 @@ theorem gen_override_sites :
     Gen.safeOverrideSites = ["SafeByte", "SafeBytes", "SafeFloat", "SafeInt", "SafeRune", "SafeString", "SafeUint",
       "handleMethods", "handleSpecialValues", "printArg", "printValue"] := by decide
 
+/-! ### G4: the decisions of `handleMethods`, `printArg` and `catchPanic`, in source order
+
+The model's `handleMethods`/`methDispatch`, the prologue of `printArg`/`printSlot` and `catchPanic`
+mirror these decision lists (if-conditions, type switches with their case types, verb switches,
+type assertions, deferred calls, returns). They are extracted from print.go on every run; a change
+of the order of dispatch, of a guard, of the verbs of a case, or of what is deferred where, breaks
+these equalities before any input is run. -/
+
+def expectHandleMethods : List String := [
+   "if p.erroring", "return", "fi", "if verb == 'w'", "assert error",
+   "if !ok || !p.wrapErrs || p.wrappedErr != nil", "return true", "fi", "fi",
+   "if p.override != overrideUnsafe", "typeswitch", "case i.SafeFormatter", "defer p.catchPanic", "return",
+   "case i.SafeMessager", "defer p.catchPanic", "switch verb", "case 'v','s','x','X','q'",
+   "defer p.startSafeOverride().restore", "end", "return", "case error", "if redactErrorFn != nil",
+   "defer p.catchPanic", "return", "fi", "end", "fi", "assert Formatter", "if ok", "defer p.catchPanic",
+   "return", "fi", "if p.fmt.sharpV", "assert GoStringer", "if ok", "defer p.catchPanic",
+   "defer p.startUnsafe().restore", "return", "fi", "else", "switch verb", "case 'v','s','x','X','q'",
+   "typeswitch", "case error", "defer p.catchPanic", "return", "case Stringer", "defer p.catchPanic",
+   "return", "end", "end", "fi", "return false"]
+
+def expectPrintArg : List String := [
+   "if t == safeWrapperType", "defer p.startSafeOverride().restore", "assert w.SafeWrapper", "else",
+   "defer p.startUnsafeOverride().restore", "assert w.UnsafeWrap", "fi", "if safeTypeRegistry[t]",
+   "defer p.startSafeOverride().restore", "fi", "assert i.SafeValue", "if ok",
+   "defer p.startSafeOverride().restore", "fi", "if arg == nil", "switch verb", "case 'T','v'",
+   "case default", "end", "return", "fi", "switch verb", "case 'T'", "return", "case 'p'", "return", "end",
+   "typeswitch", "case bool", "case float32", "case float64", "case complex64", "case complex128",
+   "case int", "case int8", "case int16", "case int32", "case int64", "case uint", "case uint8",
+   "case uint16", "case uint32", "case uint64", "case uintptr", "case string", "case []byte",
+   "case reflect.Value", "if f.IsValid()", "if p.handleSpecialValues(f, t, verb, 0)", "return", "fi",
+   "if safeTypeRegistry[t]", "defer p.startSafeOverride().restore", "fi", "if f.CanInterface()",
+   "assert i.SafeValue", "if ok", "defer p.startSafeOverride().restore", "fi", "if p.handleMethods(verb)",
+   "return", "fi", "fi", "fi", "case m.RedactableString", "defer p.startPreRedactable().restore", "return",
+   "case m.RedactableBytes", "defer p.startPreRedactable().restore", "return", "case default",
+   "if !p.handleMethods(verb)", "fi", "end"]
+
+def expectCatchPanic : List String := [
+   "if err != nil", "if v.Kind() == reflect.Ptr && v.IsNil()", "return", "fi", "if p.panicking", "fi", "fi"]
+
+theorem gen_handleMethods_skeleton : Gen.handleMethodsSkeleton = expectHandleMethods := by decide
+theorem gen_printArg_skeleton : Gen.printArgSkeleton = expectPrintArg := by decide
+theorem gen_catchPanic_skeleton : Gen.catchPanicSkeleton = expectCatchPanic := by decide
+
 end Redact
